@@ -821,6 +821,12 @@ func setMergeSettings(dpChain []*DataProcessor) mergeSettings {
 				if dp.DoesInputOrderMatter() {
 					break
 				}
+				if k < i && dp.IsPermutingCmd() {
+					// An earlier sort/top/rare may carry a limit: which rows it keeps
+					// depends on its own order, so its merge settings (less and limit)
+					// must not be relaxed to "any order" by a later command.
+					break
+				}
 
 				dp.mergeSettings = curMergeSettings
 			}
